@@ -456,7 +456,12 @@ def check_bez(V, c, pts, ends, qs, sph):
         # quadratic convergence) leaves foot errors of up to ~1e-7 of the length (observed: 4 cm on a 611 km trench)
         tol = 1e-6 * bd + 1e-6 * sum(chords)
         if own > bd + tol:
-            V.violation('bezier:closer-curve-point-exists:%s:%s' % ('spherical' if sph else 'cartesian', field), dict(detail, returned_point_distance=own, brute_min=bd, excess=own - bd))
+            cls = field
+            if abs(idx - bi) == 1 and own - bd <= 1e-4 * sum(chords) and field == 'near-field':
+                # the foot lies near the junction of two segments and the solver settled in the local minimum of the neighbouring
+                # segment: a point on the curve, but up to 1e-4 of the trench length farther away than the true foot (known finding)
+                cls = field + ':local-minimum-of-the-adjacent-segment(excess<=1e-4L)'
+            V.violation('bezier:closer-curve-point-exists:%s:%s' % ('spherical' if sph else 'cartesian', cls), dict(detail, returned_point_distance=own, brute_min=bd, excess=own - bd))
         if not sph and abs(abs(dist) - own) > 1e-9 * scale + 1e-9 * own:
             V.violation('bezier:reported-distance-is-not-the-distance-to-the-reported-point', dict(detail, reported=dist, actual=own))
         if bends and 0.02 < bt < 0.98 and field.startswith('near-field'):
